@@ -1409,6 +1409,9 @@ def run(ctx, res):
             TMP.parent.rmdir()
         except OSError:
             pass
+    # representation- and history-robustness of the public functions (harness/apirobust.py)
+    from .. import apirobust_cases as _AC
+    _AC.c16(res, np.random.default_rng(ctx["seed"] + 4242), ctx)
 
 
 def _is_fill(t, fill, d):
